@@ -1,5 +1,131 @@
 import Ptn.C17.Model
-/-! Line-protocol handler for the C17 model (core Lean only). -/
+/-! Line-protocol handler for the C17 model (core Lean only).
+
+Request (one line):
+
+    C17 <flat|struct> tree <root|-> <node> <node> … q <query> q <query> …
+
+* `<node>` = `id:parent:c1,c2,…` in **dict insertion order**, `parent` = `-` for `None`, children in
+  their list order (possibly empty: `4:1:`); `<root>` is `root_id` (`-` for `None`).
+* `flat` answers from the line-by-line port on the flat mirror; `struct` rebuilds the `RTree`
+  (answering `bad-op` when the mirror is not a rearrangement of `flatten t`) and answers from the
+  structural model the theorems are about (`leaves`, `nn` depend on the dict order and exist only
+  in `flat`).
+* queries: `path a b` · `rootpath x` · `dist c` · `linearise` · `subtree x` · `leavesunder x` ·
+  `subsize x` · `leaves` · `nn` · `start` · `updatepath` · `cachekeys c`
+* answer: the answers of the queries joined by ` | `; each is `ok` followed by identifiers
+  (`k:v` for dict entries, `a>b` for pairs) or `err` where the Python raises.
+-/
 namespace Ptn.C17
-def handle (args : List String) : String := "bad-op"
+
+def parseNode (tok : String) : Option (Nat × GNode) :=
+  match tok.splitOn ":" with
+  | [i, p, cs] => do
+    let i ← i.toNat?
+    let p ← if p == "-" then some none else (p.toNat?).map some
+    let cs ← if cs == "" then some [] else (cs.splitOn ",").mapM (fun c => c.toNat?)
+    some (i, ⟨p, cs⟩)
+  | _ => none
+
+def parseTree (toks : List String) : Option FTree :=
+  match toks with
+  | r :: nodes => do
+    let r ← if r == "-" then some none else (r.toNat?).map some
+    let ns ← nodes.mapM parseNode
+    some ⟨ns, r⟩
+  | [] => none
+
+/-- split at the separator tokens `q` -/
+def splitQ (toks : List String) : List (List String) :=
+  let (cur, acc) := toks.foldl (fun (st : List String × List (List String)) tok =>
+      if tok == "q" then ([], st.2 ++ [st.1]) else (st.1 ++ [tok], st.2)) ([], [])
+  acc ++ [cur]
+
+def showIds (l : List Nat) : String := " ".intercalate ("ok" :: l.map toString)
+def showDict (l : List (Nat × Nat)) : String :=
+  " ".intercalate ("ok" :: l.map (fun e => s!"{e.1}:{e.2}"))
+def showPairs (l : List (Nat × Nat)) : String :=
+  " ".intercalate ("ok" :: l.map (fun e => s!"{e.1}>{e.2}"))
+def orErr (o : Option String) : String := o.getD "err"
+
+def answerFlat (ft : FTree) (q : List String) : Option String :=
+  match q with
+  | ["path", a, b] => do
+    let a ← a.toNat?; let b ← b.toNat?
+    some (orErr ((ft.pathFromTo a b).map showIds))
+  | ["rootpath", x] => do
+    let x ← x.toNat?
+    some (orErr ((ft.findPathToRoot x).map showIds))
+  | ["dist", c] => do
+    let c ← c.toNat?
+    some (orErr ((ft.distanceToNode c).map showDict))
+  | ["linearise"] => some (orErr (ft.linearise.map showIds))
+  | ["subtree", x] => do
+    let x ← x.toNat?
+    some (orErr ((ft.subtree x).map showIds))
+  | ["leavesunder", x] => do
+    let x ← x.toNat?
+    some (orErr ((ft.leavesUnder x).map showIds))
+  | ["subsize", x] => do
+    let x ← x.toNat?
+    some (orErr ((ft.subtreeSize x).map (fun n => showIds [n])))
+  | ["leaves"] => some (showIds ft.getLeaves)
+  | ["nn"] => some (showPairs ft.nearestNeighbours)
+  | ["start"] => some (orErr (ft.findStart.map (fun s => showIds [s])))
+  | ["updatepath"] => some (orErr (ft.updatePath.map showIds))
+  | ["cachekeys", c] => do
+    let c ← c.toNat?
+    some (orErr ((ft.cacheKeys c).map showPairs))
+  | _ => none
+
+def answerStruct (t : RTree) (q : List String) : Option String :=
+  match q with
+  | ["path", a, b] => do
+    let a ← a.toNat?; let b ← b.toNat?
+    some (orErr ((t.pathFromTo a b).map showIds))
+  | ["rootpath", x] => do
+    let x ← x.toNat?
+    some (orErr ((t.rootPath x).map showIds))
+  | ["dist", c] => do
+    let c ← c.toNat?
+    some (orErr ((t.distanceToNode c).map showDict))
+  | ["linearise"] => some (showIds t.postorder)
+  | ["subtree", x] => do
+    let x ← x.toNat?
+    some (orErr ((t.subtreeIds x).map showIds))
+  | ["leavesunder", x] => do
+    let x ← x.toNat?
+    some (orErr ((t.leavesUnder x).map showIds))
+  | ["subsize", x] => do
+    let x ← x.toNat?
+    some (orErr ((t.subtreeSize x).map (fun n => showIds [n])))
+  | ["start"] => some (orErr (t.findStart.map (fun s => showIds [s])))
+  | ["updatepath"] => some (orErr (t.updatePath.map showIds))
+  | ["cachekeys", c] => do
+    let c ← c.toNat?
+    some (orErr ((t.cacheKeys c).map showPairs))
+  | _ => none
+
+def handle (args : List String) : String :=
+  match args with
+  | mode :: "tree" :: rest =>
+    match splitQ rest with
+    | treeToks :: queries =>
+      if queries.isEmpty then "bad-op" else
+      match parseTree treeToks with
+      | none => "bad-op"
+      | some ft =>
+        let answers : Option (List String) :=
+          if mode == "flat" then queries.mapM (answerFlat ft)
+          else if mode == "struct" then
+            match ft.toRTree with
+            | none => none
+            | some t => queries.mapM (answerStruct t)
+          else none
+        match answers with
+        | some as => " | ".intercalate as
+        | none => "bad-op"
+    | [] => "bad-op"
+  | _ => "bad-op"
+
 end Ptn.C17
